@@ -26,6 +26,7 @@ import (
 	"go/ast"
 	"go/parser"
 	"go/printer"
+	"go/scanner"
 	"go/token"
 	"os"
 	"path/filepath"
@@ -1214,7 +1215,7 @@ func renumber(n *Node, all []string) (*Node, []string) {
 
 type output struct {
 	Repo          string        `json:"repo"`
-	GrepCount     int           `json:"grep_entry_calls"` // textual count of ".Entry(" in non-test files
+	GrepCount     int           `json:"grep_entry_calls"` // textual count of ".Entry(" in non-test files (token level: comments and strings do not count)
 	ASTCount      int           `json:"ast_entry_calls"`
 	Covered       int           `json:"covered_entry_calls"` // distinct Entry call sites that became an Entry node of some entry point
 	EntryPoints   []*entryPoint `json:"entry_points"`
@@ -1266,7 +1267,6 @@ func main() {
 
 	root := filepath.Join(*repo, "pkg", "adapters")
 	res := output{Repo: *repo, HandlerTable: handlerTable}
-	reEntry := regexp.MustCompile(`\.Entry\(`)
 
 	pkgs := map[string]*pkgInfo{}
 	var dirs []string
@@ -1279,7 +1279,7 @@ func main() {
 			res.ParseFailures = append(res.ParseFailures, path+": "+err.Error())
 			return nil
 		}
-		res.GrepCount += len(reEntry.FindAll(src, -1))
+		res.GrepCount += countEntryTokens(src)
 		d := filepath.Dir(path)
 		p, ok := pkgs[d]
 		if !ok {
@@ -1457,6 +1457,28 @@ func main() {
 		}
 		fmt.Printf("grep=%d ast=%d covered=%d entry_points=%d\n", res.GrepCount, res.ASTCount, res.Covered, len(res.EntryPoints))
 	}
+}
+
+// countEntryTokens: occurrences of the token sequence `.` `Entry` `(` (go/scanner only: an
+// independent cross-check of what the parser-based translation saw)
+func countEntryTokens(src []byte) int {
+	var sc scanner.Scanner
+	fs := token.NewFileSet()
+	sc.Init(fs.AddFile("", fs.Base(), len(src)), src, nil, 0)
+	n := 0
+	var p2, p1 token.Token
+	var l1 string
+	for {
+		_, tok, lit := sc.Scan()
+		if tok == token.EOF {
+			break
+		}
+		if p2 == token.PERIOD && p1 == token.IDENT && l1 == "Entry" && tok == token.LPAREN {
+			n++
+		}
+		p2, p1, l1 = p1, tok, lit
+	}
+	return n
 }
 
 var clauseNames = map[string]string{
